@@ -35,7 +35,19 @@ Accepted (safe) idioms, in all their spellings - locals, helpers (private predic
   * `x[:len(p) + 1] == p + "."`, `x[:len(q)] == q` with q ending in '.', suffixes starting with '.';
   * cuts at an index that is the position of a separator: find / rfind('.') guarded by `!= -1` / `>= 0` / `"." in x` (if, while,
     conditional expression, walrus), `+ 1` past it, index / rindex, enumerate / range(len) positions tested to hold '.',
-    positions collected by such a test, regex matches of r"\.";
+    positions collected by such a test, regex matches of r"\.", an index variable whose not-found value is replaced or excluded
+    on every path to the cut (`if i < 0: i = len(x)`, also inside loops left by break - `_index_values_at` interprets the
+    function over the value kinds {-1, 0, separator position, len(x)}; a `for .. in range(n)` counts as run at least once only
+    where the path condition shows n > 0);
+  * `x.replace(p, y, 1)` where `x == p or x.startswith(p + ".")` is established at the call (as for `x[len(p):]`): the first
+    occurrence is then the leading run of whole components; without a count, with another count, or after a raw test: unsafe;
+  * components folded pairwise with the separator: `accumulate(parts, "{}.{}".format)`, `reduce(lambda a, b: a + "." + b, parts)`
+    (f-string / join / format / small named function alike); any other constant between the two: unsafe;
+  * a head slice or a next-character slice kept in a local (also by pairwise tuple assignment) is judged at the comparisons of
+    that local; a length kept in a field (`self._end = len(self._root)`, both assigned once, in this order, in one method) is
+    that length; class-level tuples of accepted next characters are read as constants;
+  * names handed to callable objects (`matcher(name)`, `filter(matcher, names)`, the static type of `matcher` being a repo class
+    with `__call__`) reach the parameters of `__call__`;
   * split / rsplit / partition / rpartition / count / find at '.', join of components with '.' (or of '.'-decorated components
     with ''), characters compared with '.' only, '.' replaced (name -> path), components joined with '/';
   * regexes built from an escaped name that continue with a boundary (`(\.|$)`, `\.`, `\b`) or are matched with fullmatch;
@@ -368,11 +380,47 @@ def name_flow(repo: Repo) -> Flow:
                 return set()
         return None
 
-    fl = Flow(
-        repo,
-        T,
-        Spec(sources=sources, transfer=transfer, param_seeds=seeds, objects_carry=False, iter_map={"PARTS": "COMP"}, collect_map={"COMP": "PARTS"}),
-    )
+    def build() -> Flow:
+        return Flow(
+            repo,
+            T,
+            Spec(sources=sources, transfer=transfer, param_seeds=seeds, objects_carry=False, iter_map={"PARTS": "COMP"}, collect_map={"COMP": "PARTS"}),
+        )
+
+    fl = build()
+    # callable objects: `matcher(name)`, `filter(matcher, names)`, `map(matcher, names)` where the static type of `matcher` is a repo
+    # class with __call__ - the flow engine does not route such arguments, so the parameters of __call__ are seeded with what the
+    # call sites pass (one more round of the flow analysis; only when the tree has such classes)
+    callables = {c.fq: c.methods["__call__"] for c in repo.classes.values() if "__call__" in c.methods and not isinstance(c.methods["__call__"].node, ast.Lambda)}
+    for _ in range(2 if callables else 0):
+        extra: dict[tuple[str, str], set[str]] = {}
+
+        def feed(obj_f: FuncInfo, obj: ast.expr, arg_tags: list[set[str]]) -> None:
+            for m in members(T.expr(obj_f, obj)):
+                if m[0] == "cls" and m[1] in callables:
+                    g = callables[m[1]]
+                    ps = [x for x in _positional(g) if x != "self"]
+                    for name_, tags in zip(ps, arg_tags):
+                        add = {t for t in tags if t in ("NAME", "REGEX")}
+                        if add - seeds.get((g.fq, name_), set()):
+                            extra.setdefault((g.fq, name_), set()).update(add)
+
+        for f in repo.all_functions():
+            for c in calls_in(f.node):
+                try:
+                    if isinstance(c.func, ast.Name) and c.func.id in ("filter", "map") and len(c.args) == 2 and not _is_local(f, c.func.id):
+                        feed(f, c.args[0], [set(fl.tags(c.args[1]))])
+                    elif isinstance(c.func, (ast.Name, ast.Attribute, ast.Call, ast.Subscript)) and not any(isinstance(a, ast.Starred) for a in c.args):
+                        if isinstance(c.func, (ast.Name, ast.Attribute)) and (repo.resolve_name(f.module, c.func) or "") in repo.classes:
+                            continue  # a constructor call
+                        feed(f, c.func, [set(fl.tags(a)) for a in c.args])
+                except Exception:  # noqa: BLE001 - an untypable callee feeds nothing
+                    continue
+        if not extra:
+            break
+        for k_, v_ in extra.items():
+            seeds[k_] = seeds.get(k_, set()) | v_
+        fl = build()
     _cache[key] = fl
     return fl
 
@@ -2074,6 +2122,356 @@ def _found_guard(repo: Repo, f: FuncInfo, node: ast.AST, hay: str, index_texts: 
         return False
 
 
+class _GiveUp(Exception):
+    pass
+
+
+def _range_nonempty(f: FuncInfo, loop: ast.AST) -> bool:
+    """`for .. in range(n)` (n a constant >= 1, or a variable / expression that the path condition of the loop shows to be positive:
+    `if n <= 0: return ..` before it): the body runs at least once."""
+    from core.guards import atom as mk, atoms_of, f_not, f_or, implies
+
+    from .common import guard_formula
+
+    it = getattr(loop, "iter", None)
+    if not (isinstance(it, ast.Call) and isinstance(it.func, ast.Name) and it.func.id == "range" and len(it.args) == 1 and not it.keywords):
+        return False
+    n = it.args[0]
+    if isinstance(n, ast.Constant):
+        return isinstance(n.value, int) and not isinstance(n.value, bool) and n.value >= 1
+    text = norm(n)
+    try:
+        facts = guard_formula(f, loop)
+    except Exception:  # noqa: BLE001
+        return False
+    pos, neg = [], []
+    for a in atoms_of(facts):
+        e = _unbool(_parse_atom(a))
+        if not (isinstance(e, ast.Compare) and len(e.ops) == 1):
+            continue
+        l, op, r = e.left, type(e.ops[0]), e.comparators[0]
+        for x, y, flip in ((l, r, False), (r, l, True)):
+            if norm(x) != text:
+                continue
+            try:
+                k = ast.literal_eval(y)
+            except Exception:  # noqa: BLE001
+                continue
+            if isinstance(k, bool) or not isinstance(k, int):
+                continue
+            o = {ast.Lt: ast.Gt, ast.Gt: ast.Lt, ast.LtE: ast.GtE, ast.GtE: ast.LtE}.get(op, op) if flip else op
+            if (o is ast.Gt and k >= 0) or (o is ast.GtE and k >= 1):
+                pos.append(mk(a))
+            elif (o is ast.LtE and k >= 0) or (o is ast.Lt and k >= 1):
+                neg.append(mk(a))
+    try:
+        return bool(pos or neg) and implies(facts, f_or([*pos, *[f_not(x) for x in neg]]))
+    except AnalysisError:
+        return False
+
+
+def _index_values_at(f: FuncInfo, var: str, hay: str, at: ast.AST) -> frozenset | None:
+    """Which kinds of values the index variable `var` can hold when the statement that contains `at` is reached - a small
+    path-sensitive interpretation of the function body. Every local is mapped to a set of kinds: neg (-1: separator not found /
+    sentinel), zero (constant 0), sep (position of a '.' of `hay`: find / rfind result that is not -1, index / rindex),
+    len (len(hay)), other (anything else). Values: `hay.find(".", ..)`, `hay.index(".")`, `len(hay)`, -1, 0, another local,
+    conditional expressions, `max(i, 0)`. Tests of a local against integer constants (`i < 0`, `i == -1`, `i != -1`, `i >= 0`,
+    either side, truthiness, `not`, `and` / `or`, walrus) refine the sets on the two branches of if / while / conditional
+    expressions; loops are iterated to a fixpoint, break / continue / return / raise end a path; an exception handler may be
+    entered after any assignment of the try body. None: the variable may hold something else there (no statement is made then)."""
+    fn = f.node
+    if not isinstance(fn, (ast.FunctionDef, ast.AsyncFunctionDef)) or var in f.param_names:
+        return None
+    target = at if isinstance(at, ast.stmt) else stmt_of(at)
+    if target is None:
+        return None
+    OTHER = frozenset({"other"})
+    HAS_DOT, YES, NO, BOTH = "<'.' in name>", frozenset({"yes"}), frozenset({"no"}), frozenset({"yes", "no"})
+    WHOLE = "<results of whole-name searches>"  # the locals that hold the result of `name.find(".")` / `name.rfind(".")` without bounds
+    seen_at: list = [None]
+    poisoned = {n_ for x in ast.walk(fn) if isinstance(x, (ast.Nonlocal, ast.Global)) for n_ in x.names}  # (changed behind our back)
+    if var in poisoned:
+        return None
+
+    def get(env: dict, v: str) -> frozenset:
+        return OTHER if v in poisoned else env.get(v, OTHER)
+
+    def join_env(a, b):
+        if a is None:
+            return b
+        if b is None:
+            return a
+        out = {k: a.get(k, BOTH if k == HAS_DOT else OTHER) | b.get(k, BOTH if k == HAS_DOT else OTHER) for k in set(a) | set(b) if k != WHOLE}
+        out[WHOLE] = a.get(WHOLE, frozenset()) & b.get(WHOLE, frozenset())
+        return out
+
+    def can(kind: str, op: type, k: int, want: bool) -> bool:
+        """Some value of this kind makes `value <op> k` evaluate to `want`."""
+        table = {ast.Lt: lambda x: x < k, ast.LtE: lambda x: x <= k, ast.Gt: lambda x: x > k, ast.GtE: lambda x: x >= k, ast.Eq: lambda x: x == k, ast.NotEq: lambda x: x != k}
+        fn_ = table.get(op)
+        if fn_ is None or kind == "other":
+            return True
+        if kind == "neg":
+            return fn_(-1) is want
+        if kind == "zero":
+            return fn_(0) is want
+        # any non-negative integer: the truth value changes at most once around k
+        return any(fn_(x) is want for x in (0, max(k - 1, 0), max(k, 0), max(k, 0) + 1))
+
+    def bind_walrus(e: ast.AST, env: dict) -> dict:
+        """Assignment expressions somewhere inside `e` (weak update: they may or may not have been evaluated)."""
+        for x in ast.walk(e):
+            if isinstance(x, ast.NamedExpr) and isinstance(x.target, ast.Name):
+                env = {**env, x.target.id: get(env, x.target.id) | value(x.value, env)[0], WHOLE: env.get(WHOLE, frozenset()) - {x.target.id}}
+            elif isinstance(x, (ast.ListComp, ast.SetComp, ast.DictComp, ast.GeneratorExp)):
+                for g in x.generators:  # (a comprehension variable of the same name is another variable: nothing is known about loads of it)
+                    for t in ast.walk(g.target):
+                        if isinstance(t, ast.Name) and t.id in env:
+                            env = {**env, t.id: OTHER}
+        return env
+
+    def is_whole_search(v: ast.expr) -> bool:
+        return isinstance(v, ast.Call) and isinstance(v.func, ast.Attribute) and norm(v.func.value) == hay and len(v.args) == 1 and not v.keywords and _const_str(v.args[0]) == "." and v.func.attr in ("find", "rfind")
+
+    def value(v: ast.expr, env: dict) -> tuple[frozenset, dict]:
+        """(kinds of the value of `v`, environment after evaluating it)."""
+        if isinstance(v, ast.NamedExpr) and isinstance(v.target, ast.Name):
+            k, env = value(v.value, env)
+            return k, assign(v.target, k, env, whole=is_whole_search(v.value))
+        if isinstance(v, ast.Name):
+            return get(env, v.id), env
+        if isinstance(v, ast.IfExp):
+            a = refine(v.test, env, True)
+            b = refine(v.test, env, False)
+            ka, ea = value(v.body, a) if a is not None else (frozenset(), None)
+            kb, eb = value(v.orelse, b) if b is not None else (frozenset(), None)
+            out = join_env(ea, eb)
+            return ka | kb, out if out is not None else env
+        if isinstance(v, ast.Call) and isinstance(v.func, ast.Attribute) and norm(v.func.value) == hay and v.args and _const_str(v.args[0]) == "." and v.func.attr in SEARCH_METHODS:
+            k = {"neg", "sep"} if v.func.attr in ("find", "rfind") else {"sep"}
+            if len(v.args) == 1 and not v.keywords:  # the whole name is searched: `"." in name` was possibly decided before
+                dot = env.get(HAS_DOT, BOTH)
+                k = k - ({"neg"} if dot == YES else set()) - ({"sep"} if dot == NO else set())
+            return frozenset(k), bind_walrus(v, env)
+        if isinstance(v, ast.Call) and isinstance(v.func, ast.Name) and v.func.id == "len" and len(v.args) == 1 and not v.keywords and norm(v.args[0]) == hay:
+            return frozenset({"len"}), env
+        if isinstance(v, ast.Call) and isinstance(v.func, ast.Name) and v.func.id == "max" and len(v.args) == 2 and not v.keywords and any(isinstance(a, ast.Constant) and a.value == 0 and not isinstance(a.value, bool) for a in v.args):
+            inner = next(a for a in v.args if not (isinstance(a, ast.Constant) and a.value == 0))
+            k, env = value(inner, env)
+            return frozenset("zero" if x == "neg" else x for x in k), env
+        try:
+            k = ast.literal_eval(v)
+            if not isinstance(k, bool) and isinstance(k, int) and k in (-1, 0):
+                return frozenset({"neg" if k == -1 else "zero"}), env
+        except Exception:  # noqa: BLE001
+            pass
+        return OTHER, bind_walrus(v, env)
+
+    def refine(test: ast.expr, env, want: bool):
+        """Environment on the branch where `test` evaluates to `want` (None = unreachable)."""
+        if env is None:
+            return None
+        if isinstance(test, ast.Constant):
+            return env if bool(test.value) is want else None
+        if isinstance(test, ast.UnaryOp) and isinstance(test.op, ast.Not):
+            return refine(test.operand, env, not want)
+        if isinstance(test, ast.BoolOp):
+            conj = isinstance(test.op, ast.And)
+            if conj == want:  # every operand has the value `want`
+                for v in test.values:
+                    env = refine(v, env, want)
+                return env
+            out = None  # operand i is the first with the other value
+            cur = env
+            for v in test.values:
+                out = join_env(out, refine(v, cur, want))
+                cur = refine(v, cur, not want)
+            return out
+        if isinstance(test, ast.NamedExpr) and isinstance(test.target, ast.Name):
+            _k, env = value(test, env)
+            return refine(test.target, env, want)
+        if isinstance(test, ast.Name) and test.id in env and test.id not in poisoned:  # truthiness of an index
+            kept = frozenset(k for k in env[test.id] if not ((k == "zero" and want) or (k == "neg" and not want)))
+            return {**env, test.id: kept} if kept else None
+        dot_test = None  # does the test say whether the name holds a separator at all?
+        if isinstance(test, ast.Compare) and len(test.ops) == 1 and isinstance(test.ops[0], (ast.In, ast.NotIn)) and _const_str(test.left) == "." and norm(test.comparators[0]) == hay:
+            dot_test = isinstance(test.ops[0], ast.In)
+        elif isinstance(test, ast.Call) and isinstance(test.func, ast.Attribute) and test.func.attr == "count" and norm(test.func.value) == hay and len(test.args) == 1 and _const_str(test.args[0]) == ".":
+            dot_test = True
+        if dot_test is not None:
+            has = dot_test is want
+            if env.get(HAS_DOT, BOTH) == (NO if has else YES):
+                return None
+            env = {**env, HAS_DOT: YES if has else NO}
+            for w in env.get(WHOLE, frozenset()):  # results of earlier searches of the whole name
+                kept = env[w] - ({"neg"} if has else {"sep"})
+                if not kept:
+                    return None
+                env[w] = kept
+            return env
+        if isinstance(test, ast.Compare) and len(test.ops) == 1:
+            l, op, r = test.left, type(test.ops[0]), test.comparators[0]
+            for x, y, flip in ((l, r, False), (r, l, True)):
+                try:
+                    k = ast.literal_eval(y)
+                except Exception:  # noqa: BLE001
+                    continue
+                if isinstance(k, bool) or not isinstance(k, int):
+                    continue
+                if isinstance(x, ast.NamedExpr) and isinstance(x.target, ast.Name):
+                    _k, env = value(x, env)
+                    x = x.target
+                if isinstance(x, ast.Name) and x.id in env and x.id not in poisoned:
+                    o = {ast.Lt: ast.Gt, ast.Gt: ast.Lt, ast.LtE: ast.GtE, ast.GtE: ast.LtE}.get(op, op) if flip else op
+                    kept = frozenset(v for v in env[x.id] if can(v, o, k, want))
+                    return {**env, x.id: kept} if kept else None
+                break
+        return bind_walrus(test, env)
+
+    def assign(t: ast.expr, kinds: frozenset | None, env: dict, whole: bool = False) -> dict:
+        if isinstance(t, ast.Name):
+            if t.id == hay:  # the searched name itself changes: positions in it and its length are stale
+                env = {k: (v if not (v & {"sep", "len"}) else OTHER) for k, v in env.items() if k not in (HAS_DOT, WHOLE)}
+            env = {**env, t.id: kinds if kinds is not None else OTHER}
+            env[WHOLE] = env.get(WHOLE, frozenset()) - {t.id} | ({t.id} if whole else frozenset())
+            return env
+        for x in ast.walk(t):
+            if isinstance(x, ast.Name) and isinstance(x.ctx, ast.Store):
+                env = {**env, x.id: OTHER}
+        return env
+
+    def block(stmts: list, env):
+        """(fall-through, break, continue) environments of a statement list."""
+        brk = cont = None
+        for s in stmts:
+            if env is None:
+                break
+            env, b, c = stmt(s, env)
+            brk, cont = join_env(brk, b), join_env(cont, c)
+        return env, brk, cont
+
+    def loop(s, env, test: ast.expr | None):
+        head = env
+        brk_all = back = None
+        for _ in range(12):
+            inside = refine(test, head, True) if test is not None else assign(s.target, None, head)
+            out, b, c = block(s.body, inside)
+            brk_all = join_env(brk_all, b)
+            back = join_env(out, c)  # the environments at the end of a round
+            new_head = join_env(head, back)
+            if new_head == head:
+                break
+            head = new_head
+        else:
+            raise _GiveUp
+        if s is target:  # (the iterable of a for loop is evaluated once, the test of a while loop before every round)
+            seen_at[0] = join_env(seen_at[0], head if test is not None else env)
+        if test is not None:
+            done = refine(test, head, False)
+        else:  # a for loop ends after its last round - or at once, unless its range is known not to be empty
+            done = back if _range_nonempty(f, s) else head
+        e_out, e_b, e_c = block(s.orelse, done)
+        return join_env(e_out, brk_all), e_b, e_c
+
+    def stmt(s: ast.stmt, env):
+        if s is target and not isinstance(s, (ast.While, ast.For, ast.AsyncFor)):
+            seen_at[0] = join_env(seen_at[0], env)
+        if isinstance(s, (ast.FunctionDef, ast.AsyncFunctionDef, ast.ClassDef)):
+            return assign(ast.Name(id=s.name, ctx=ast.Store()), None, env), None, None
+        if isinstance(s, (ast.Assign, ast.AnnAssign)):
+            if s.value is None:
+                return env, None, None
+            tgts = s.targets if isinstance(s, ast.Assign) else [s.target]
+            if len(tgts) == 1 and isinstance(tgts[0], (ast.Tuple, ast.List)) and isinstance(s.value, (ast.Tuple, ast.List)) and len(tgts[0].elts) == len(s.value.elts) and not any(isinstance(x, ast.Starred) for x in [*tgts[0].elts, *s.value.elts]):
+                ks = []
+                for v in s.value.elts:  # (all right-hand sides are evaluated first)
+                    k, env = value(v, env)
+                    ks.append(k)
+                for t, k in zip(tgts[0].elts, ks):
+                    env = assign(t, k, env)
+                return env, None, None
+            k, env = value(s.value, env)
+            for t in tgts:
+                env = assign(t, k, env, whole=is_whole_search(s.value))
+            return env, None, None
+        if isinstance(s, ast.AugAssign):
+            env = bind_walrus(s.value, env)
+            return assign(s.target, None, env), None, None
+        if isinstance(s, ast.If):
+            a, ab, ac = block(s.body, refine(s.test, env, True))
+            b, bb, bc = block(s.orelse, refine(s.test, env, False))
+            return join_env(a, b), join_env(ab, bb), join_env(ac, bc)
+        if isinstance(s, ast.While):
+            return loop(s, env, s.test)
+        if isinstance(s, (ast.For, ast.AsyncFor)):
+            return loop(s, bind_walrus(s.iter, env), None)
+        if isinstance(s, ast.Break):
+            return None, env, None
+        if isinstance(s, ast.Continue):
+            return None, None, env
+        if isinstance(s, (ast.Return, ast.Raise)):
+            return None, None, None
+        if isinstance(s, (ast.With, ast.AsyncWith)):
+            for i in s.items:
+                env = bind_walrus(i.context_expr, env)
+                if i.optional_vars is not None:
+                    env = assign(i.optional_vars, None, env)
+            return block(s.body, env)
+        if isinstance(s, ast.Try) or s.__class__.__name__ == "TryStar":
+            out, b, c = block(s.body, env)
+            # an exception can leave the body after any of its assignments: weak update with everything the body may store
+            mid = env
+            for x in ast.walk(ast.Module(body=s.body, type_ignores=[])):
+                if isinstance(x, ast.Name) and isinstance(x.ctx, (ast.Store, ast.Del)):
+                    st_ = parent(x)
+                    k = OTHER
+                    if isinstance(st_, (ast.Assign, ast.AnnAssign, ast.NamedExpr)) and getattr(st_, "value", None) is not None and (x is getattr(st_, "target", None) or x in getattr(st_, "targets", [])):
+                        k = _try_value(st_.value)
+                    mid = {**mid, x.id: get(mid, x.id) | k, WHOLE: mid.get(WHOLE, frozenset()) - {x.id}}
+            e_out, e_b, e_c = block(s.orelse, out)
+            res, rb, rc = e_out, join_env(b, e_b), join_env(c, e_c)
+            for h in s.handlers:
+                h_env = assign(ast.Name(id=h.name, ctx=ast.Store()), None, mid) if h.name else mid
+                h_out, h_b, h_c = block(h.body, h_env)
+                res, rb, rc = join_env(res, h_out), join_env(rb, h_b), join_env(rc, h_c)
+            if s.finalbody:
+                f_out, f_b, f_c = block(s.finalbody, join_env(res, mid))
+                if f_out is None:
+                    res = None
+                elif res is not None:  # (on the normal path only what the finally block itself assigns changes)
+                    stored = {x.id for st_ in s.finalbody for x in ast.walk(st_) if isinstance(x, ast.Name) and isinstance(x.ctx, (ast.Store, ast.Del))}
+                    res = {k: (f_out.get(k, OTHER) if k in stored else v) for k, v in res.items()}
+                rb, rc = join_env(rb, f_b), join_env(rc, f_c)
+            return res, rb, rc
+        if isinstance(s, ast.Delete):
+            for t in s.targets:
+                env = assign(t, None, env)
+            return env, None, None
+        if isinstance(s, (ast.Expr, ast.Assert)):
+            return bind_walrus(s, env), None, None
+        if isinstance(s, (ast.Pass, ast.Import, ast.ImportFrom, ast.Global, ast.Nonlocal)):
+            for a in getattr(s, "names", []):
+                if isinstance(a, ast.alias):
+                    env = assign(ast.Name(id=(a.asname or a.name).split(".")[0], ctx=ast.Store()), None, env)
+            return env, None, None
+        raise _GiveUp  # match statements etc.
+
+    def _try_value(v: ast.expr) -> frozenset:
+        """Kinds of a value assigned inside a try body, for the weak update at the handlers (locals read there: anything)."""
+        k, _e = value(v, {})
+        return k
+
+    try:
+        block(fn.body, {})
+    except (_GiveUp, RecursionError):
+        return None
+    env_at = seen_at[0]
+    if env_at is None:
+        return None
+    kinds = get(env_at, var)
+    return None if "other" in kinds or not kinds else kinds
+
+
 def _boundary_index_var(repo: Repo, f: FuncInfo, var: str, hay: str, at: ast.AST, nonneg: bool = False) -> str | None:
     """Every binding of `var` is the position of a separator in `hay` (`hay.find(".", ..)` / `hay.rfind(".", ..)`), the length of
     `hay` (the whole name) or a not-found sentinel (-1 / 0): 'safe' if `at` is only reached with a found position,
@@ -2094,8 +2492,21 @@ def _boundary_index_var(repo: Repo, f: FuncInfo, var: str, hay: str, at: ast.AST
 
     finds = [v for v in vals if isinstance(v, ast.Call) and isinstance(v.func, ast.Attribute) and v.func.attr in ("find", "rfind") and norm(v.func.value) == hay and v.args and _const_str(v.args[0]) == "."]
     if not (binds and len(vals) == len(binds) and finds and all(v in finds or sentinel(v) or whole(v) for v in vals)):
-        return None
+        # other spellings (index / rindex in a try, conditional expressions, copies of another index variable, `max(i, 0)`):
+        # decided by the reaching values alone
+        if not binds or any(kind != "value" for kind, _src, _p in binds):
+            return None
+        kinds = _index_values_at(f, var, hay, at)
+        if not kinds or not (kinds & {"sep", "neg", "len"}):
+            return None
+        if "neg" not in kinds or (nonneg and "zero" not in kinds):
+            return "safe"
+        return "safe" if _found_guard(repo, f, at, hay, {var}) else "unsafe"
     if nonneg or _found_guard(repo, f, at, hay, {var}):
+        return "safe"
+    # reaching values: on every path to the cut the not-found result was replaced (`if i < 0: i = len(name)`) or excluded
+    kinds = _index_values_at(f, var, hay, at)
+    if kinds and "neg" not in kinds:
         return "safe"
     return "unsafe"
 
@@ -2203,6 +2614,14 @@ def _index_cut(repo: Repo, f: FuncInfo, node: ast.Subscript, bound: ast.expr, is
             if pat in ("\\.", "[.]"):
                 if core.func.attr == "start" or not is_upper:
                     return "safe", "cut at a position where the regular expression '\\.' matched the separator"
+    # a local with one definition that is none of the above (`end = i if i != -1 else len(name)`, `end = max(i, 0)`): reaching values
+    c0, o0 = _strip_offset(bound)
+    if isinstance(c0, ast.Name) and o0 in (0, 1) and not isinstance(f.node, ast.Lambda) and local_defs(repo, f).get(c0.id) is not None:
+        v_ = _boundary_index_var(repo, f, c0.id, hay, node, nonneg=(o0 == 1))
+        if v_ == "safe":
+            return "safe", "cut at a separator found by find/rfind/index (or at the end of the name): the not-found result -1 cannot reach this slice"
+        if v_ == "unsafe":
+            return "unsafe", f"`{norm(node, 60)}`: find('.') is -1 for a name without (further) separator, the slice then cuts off the last character"
     return "unknown", f"`{norm(node, 60)}`: cannot establish that the index `{norm(bound, 30)}` is the position of a separator"
 
 
@@ -2250,16 +2669,98 @@ def _positions_of(repo: Repo, f: FuncInfo, node: ast.AST, var: str, tgt: ast.exp
     return None
 
 
+def _len_field(repo: Repo, f: FuncInfo, e: ast.expr) -> ast.Call | None:
+    """`self._end` where the only assignment of the field is `self._end = len(self._root)` in a method that also holds the only
+    assignment(s) of `self._root`, all of them before it: the field is the length of that other field - returns `len(self._root)`."""
+    if not (isinstance(e, ast.Attribute) and isinstance(e.value, ast.Name) and e.value.id == "self" and f.cls is not None and not isinstance(f.node, ast.Lambda)):
+        return None
+    key = ("len_field", id(repo), f.cls.fq, e.attr)
+    if key in _cache:
+        return _cache[key]
+    out = None
+    try:
+        O = origins(repo)
+        asg = O._field_assignments(f, e.attr)
+        if len(asg) == 1:
+            m, v = asg[0]
+            if isinstance(v, ast.Call) and isinstance(v.func, ast.Name) and v.func.id == "len" and len(v.args) == 1 and not v.keywords and not _is_local(m, "len"):
+                a = v.args[0]
+                if isinstance(a, ast.Attribute) and isinstance(a.value, ast.Name) and a.value.id == "self" and a.attr != e.attr:
+                    other = O._field_assignments(f, a.attr)
+                    if other and all(m2 is m and getattr(v2, "lineno", 10**9) < getattr(v, "lineno", 0) for m2, v2 in other):
+                        out = ast.Call(func=ast.Name(id="len", ctx=ast.Load()), args=[ast.Attribute(value=ast.Name(id="self", ctx=ast.Load()), attr=a.attr, ctx=ast.Load())], keywords=[])
+    except Exception:  # noqa: BLE001
+        out = None
+    _cache[key] = out
+    return out
+
+
+def _attr_constant_collection(repo: Repo, f: FuncInfo, e: ast.Attribute) -> ast.Tuple | None:
+    """`self.X` / `cls.X` / `Class.X` that is a class-level tuple / list / set / frozenset of string constants: the tuple of them."""
+    classes = []
+    if isinstance(e.value, ast.Name) and e.value.id in ("self", "cls") and f.cls is not None:
+        classes = repo.mro(f.cls)
+    elif isinstance(e.value, (ast.Name, ast.Attribute)):
+        fq = repo.resolve_name(f.module, e.value)
+        ci = repo.classes.get(fq) if fq else None
+        if ci is not None:
+            classes = repo.mro(ci)
+    for ci in classes:
+        if e.attr in ci.class_attrs:
+            v = ci.class_attrs[e.attr]
+            if isinstance(v, ast.Call) and isinstance(v.func, ast.Name) and v.func.id in ("frozenset", "tuple", "set", "list") and len(v.args) == 1:
+                v = v.args[0]
+            if isinstance(v, (ast.Tuple, ast.List, ast.Set)) and v.elts and all(_const_str(x) is not None for x in v.elts):
+                if isinstance(e.value, ast.Name) and e.value.id == "self" and origins(repo)._field_assignments(f, e.attr)[:-1]:
+                    return None  # (also assigned on instances)
+                return ast.Tuple(elts=[ast.Constant(value=_const_str(x)) for x in v.elts], ctx=ast.Load())
+            return None
+    return None
+
+
+def _bound_local(f: FuncInfo, n: ast.AST) -> str | None:
+    """The local variable that is bound to exactly the value `n` by its only assignment: `v = n`, `v: T = n`,
+    `v, w = n, other` (pairwise tuple assignment)."""
+    if isinstance(f.node, ast.Lambda):
+        return None
+    st = stmt_of(n)
+    var = None
+    if isinstance(st, ast.Assign) and len(st.targets) == 1:
+        t = st.targets[0]
+        if st.value is n and isinstance(t, ast.Name):
+            var = t.id
+        elif isinstance(t, (ast.Tuple, ast.List)) and isinstance(st.value, (ast.Tuple, ast.List)) and len(t.elts) == len(st.value.elts) and not any(isinstance(x, ast.Starred) for x in [*t.elts, *st.value.elts]):
+            for tt, vv in zip(t.elts, st.value.elts):
+                if vv is n and isinstance(tt, ast.Name):
+                    # (the right-hand sides are evaluated before any target is bound: no target may be read on the right)
+                    tnames = {x.id for x in t.elts if isinstance(x, ast.Name)}
+                    if not any(isinstance(x, ast.Name) and x.id in tnames for x in ast.walk(st.value)):
+                        var = tt.id
+    elif isinstance(st, ast.AnnAssign) and st.value is n and isinstance(st.target, ast.Name):
+        var = st.target.id
+    if var is None or var in f.param_names:
+        return None
+    if len([x for x in own_nodes(f.node) if isinstance(x, ast.Name) and x.id == var and isinstance(x.ctx, ast.Store)]) != 1:
+        return None
+    return var
+
+
 def _len_calls(repo: Repo, f: FuncInfo, b: ast.expr | None) -> list[ast.Call]:
     """The len(..) calls a slice bound is computed from (directly or through a single-assignment local)."""
     if b is None:
         return []
     out = [c for c in ast.walk(b) if isinstance(c, ast.Call) and isinstance(c.func, ast.Name) and c.func.id == "len" and c.args]
+
+    def fields(x: ast.AST) -> list[ast.Call]:  # a length kept in a field: `self._end = len(self._root)`
+        return [c for a in ast.walk(x) if isinstance(a, ast.Attribute) for c in [_len_field(repo, f, a)] if c is not None]
+
+    out += fields(b)
     for x in ast.walk(b):
         if isinstance(x, ast.Name):
             d = local_defs(repo, f).get(x.id)
             if d is not None and not isinstance(d, (ast.ListComp, ast.GeneratorExp, ast.SetComp, ast.DictComp)):
                 out += [c for c in ast.walk(d) if isinstance(c, ast.Call) and isinstance(c.func, ast.Name) and c.func.id == "len" and c.args]
+                out += fields(d)
     return out
 
 
@@ -2268,15 +2769,35 @@ def _len_bound(repo: Repo, f: FuncInfo, b: ast.expr | None, hay: str = "") -> as
     return next((c for c in _len_calls(repo, f, b) if norm(c.args[0]) != hay), None)
 
 
-def _slice_as_prefix_test(repo: Repo, f: FuncInfo, n: ast.Subscript) -> tuple[str, str] | None:
+def _slice_as_prefix_test(repo: Repo, f: FuncInfo, n: ast.Subscript, _cmp: tuple | None = None) -> tuple[str, str] | None:
     """`name[:len(p)] == p` is `name.startswith(p)`, `name[:len(o) + 1] == o + "."` is `name.startswith(o + ".")`,
     `name[-len(s):] == s` is `name.endswith(s)`: classified like the method."""
     cmp_ = parent(n)
-    if not (isinstance(cmp_, ast.Compare) and len(cmp_.ops) == 1 and isinstance(cmp_.ops[0], (ast.Eq, ast.NotEq))):
-        return None
-    other_side = cmp_.comparators[0] if cmp_.left is n else cmp_.left
-    if other_side is n:
-        return None
+    if _cmp is not None:
+        cmp_, other_side = _cmp
+    else:
+        if not (isinstance(cmp_, ast.Compare) and len(cmp_.ops) == 1 and isinstance(cmp_.ops[0], (ast.Eq, ast.NotEq))):
+            # the slice is kept in a local that is only ever compared: `head = name[:len(p)]` ... `head == p`
+            var = _bound_local(f, n)
+            if var is None:
+                return None
+            uses = [x for x in own_nodes(f.node) if isinstance(x, ast.Name) and x.id == var and isinstance(x.ctx, ast.Load)]
+            verdicts = []
+            for u_ in uses:
+                c_ = parent(u_)
+                if not (isinstance(c_, ast.Compare) and len(c_.ops) == 1 and isinstance(c_.ops[0], (ast.Eq, ast.NotEq))):
+                    return None
+                o_ = c_.comparators[0] if c_.left is u_ else c_.left
+                if o_ is u_:
+                    return None
+                verdicts.append(_slice_as_prefix_test(repo, f, n, _cmp=(c_, o_)))
+            if not verdicts or any(v is None for v in verdicts):
+                return None
+            bad = next((v for v in verdicts if v[0] != "safe"), None)
+            return bad or verdicts[0]
+        other_side = cmp_.comparators[0] if cmp_.left is n else cmp_.left
+        if other_side is n:
+            return None
     lo, hi = n.slice.lower, n.slice.upper
     side = _expand(repo, f, other_side)
     if lo is None and hi is not None:
@@ -2287,6 +2808,8 @@ def _slice_as_prefix_test(repo: Repo, f: FuncInfo, n: ast.Subscript) -> tuple[st
                 c2, o2 = _strip_offset(d)
                 if off is not None and o2 is not None:
                     core, off = c2, off + o2
+        if isinstance(core, ast.Attribute) and _len_field(repo, f, core) is not None:
+            core = _len_field(repo, f, core)  # a length kept in a field
         if isinstance(core, ast.Call) and _call_name(core) == "len" and core.args and off is not None:
             p_ = core.args[0]
             if off == 0 and norm(p_) in (norm(other_side), norm(side)):
@@ -2367,6 +2890,12 @@ def _expand_names(repo: Repo, f: FuncInfo, e: ast.AST, depth: int = 0):
             c = _attr_constant(repo, types_of(repo), f, x)
             if c is not None:
                 return ast.Constant(value=c)
+            lf = _len_field(repo, f, x)
+            if lf is not None:
+                return lf
+            coll = _attr_constant_collection(repo, f, x)
+            if coll is not None:
+                return coll
         new = type(x)()
         for fld in x._fields:
             if hasattr(x, fld):
@@ -2745,6 +3274,8 @@ def _remainder_uses(repo: Repo, f: FuncInfo, n: ast.AST, hay_e: ast.expr, needle
         if not single_store(st.targets[0].id):
             return False, False
         uses = loads(st.targets[0].id)
+    elif _bound_local(f, n) is not None:  # (pairwise tuple assignment, annotated assignment)
+        uses = loads(_bound_local(f, n))
     elif isinstance(parent(n), ast.NamedExpr) and parent(n).value is n and isinstance(parent(n).target, ast.Name):
         if not single_store(parent(n).target.id):
             return False, False
@@ -3173,6 +3704,9 @@ def _remainder_only_examined(repo: Repo, f: FuncInfo, n: ast.AST) -> bool:
         if len(stores) != 1 or var in f.param_names:
             return False
         uses = [x for x in own_nodes(f.node) if isinstance(x, ast.Name) and x.id == var and isinstance(x.ctx, ast.Load)]
+    elif _bound_local(f, n) is not None:  # (pairwise tuple assignment, annotated assignment)
+        var = _bound_local(f, n)
+        uses = [x for x in own_nodes(f.node) if isinstance(x, ast.Name) and x.id == var and isinstance(x.ctx, ast.Load)]
     else:
         uses = [n]
     if not uses:
@@ -3208,8 +3742,11 @@ def _remainder_only_examined(repo: Repo, f: FuncInfo, n: ast.AST) -> bool:
     return dot_test
 
 
-def _slice_by_len(repo: Repo, f: FuncInfo, n: ast.AST, other_e: ast.expr, boundary_funcs: set[str], depth: int = 0, hay_e: ast.expr | None = None) -> tuple[str, str]:
-    """Verdict for removing the first len(other) characters of the name `hay` at node `n` (`hay[len(other):]`, `hay.removeprefix(other)`)."""
+def _slice_by_len(repo: Repo, f: FuncInfo, n: ast.AST, other_e: ast.expr, boundary_funcs: set[str], depth: int = 0, hay_e: ast.expr | None = None, relation_only: bool = False) -> tuple[str, str]:
+    """Verdict for removing the first len(other) characters of the name `hay` at node `n` (`hay[len(other):]`, `hay.removeprefix(other)`).
+
+    relation_only: accept only when `hay == other or hay.startswith(other + ".")` is established at `n` (not because the result
+    is merely examined) - for operations that are a cut only under that relation (`hay.replace(other, x, 1)`)."""
     from core.guards import f_or, implies
 
     hay_e = hay_e if hay_e is not None else n.value
@@ -3222,15 +3759,16 @@ def _slice_by_len(repo: Repo, f: FuncInfo, n: ast.AST, other_e: ast.expr, bounda
             return "safe", "prefix length of an ancestor established by a boundary-safe test"
         if _ancestor_or_self(repo, f, other_e, hay):
             return "safe", "the other string is the name itself or one of its ancestors (get_parent_modules)"
-        if f.fq in boundary_funcs or _boundary_predicate(repo, f, hay, other):
-            return "safe", "the remainder is only examined by the boundary test of this predicate"
-        if _remainder_only_examined(repo, f, n):
-            return "safe", "the remainder is only tested to be empty or to start with the separator"
-        only_tests, guarded = _remainder_uses(repo, f, n, hay_e, other_e)
-        if only_tests:
-            return "safe", "the remainder is only tested to be empty or to start with the separator"
-        if guarded and raw_a and implies(facts, f_or([*safe_a, *raw_a])):
-            return "safe", "after the raw prefix test the remainder is used only where it was tested to be empty or to start with the separator"
+        if not relation_only:
+            if f.fq in boundary_funcs or _boundary_predicate(repo, f, hay, other):
+                return "safe", "the remainder is only examined by the boundary test of this predicate"
+            if _remainder_only_examined(repo, f, n):
+                return "safe", "the remainder is only tested to be empty or to start with the separator"
+            only_tests, guarded = _remainder_uses(repo, f, n, hay_e, other_e)
+            if only_tests:
+                return "safe", "the remainder is only tested to be empty or to start with the separator"
+            if guarded and raw_a and implies(facts, f_or([*safe_a, *raw_a])):
+                return "safe", "after the raw prefix test the remainder is used only where it was tested to be empty or to start with the separator"
         if raw_a and implies(facts, f_or([*safe_a, *raw_a])):
             return "unsafe", f"`{norm(n, 60)}` cuts a module name at the length of another string without a boundary-safe prefix test"
     except AnalysisError:
@@ -3432,6 +3970,72 @@ def _char_prefix_sites(repo: Repo, f: FuncInfo, loop: ast.For, char: str, it: as
     return out
 
 
+def _pair_joiner_separator(repo: Repo, f: FuncInfo, fn: ast.expr, depth: int = 0) -> str | None:
+    """The constant a two-argument combiner puts between its arguments (`"{}.{}".format`, `lambda a, b: f"{a}.{b}"`,
+    `lambda a, b: a + "." + b`, `lambda a, b: ".".join((a, b))`, a small function that returns one of these); None if `fn` is
+    not such a combiner."""
+    if isinstance(fn, ast.Attribute) and fn.attr == "format":
+        fmt = _const_str(fn.value)
+        if fmt is None and isinstance(fn.value, (ast.Name, ast.Attribute)):
+            fmt = fold(repo, f.module, fn.value, f)
+        if fmt is None:
+            return None
+        import re as _re
+
+        m = _re.fullmatch(r"\{(0?)\}(.*?)\{(1?)\}", fmt, _re.S)
+        if m is None or (bool(m.group(1)) != bool(m.group(3))) or "{" in m.group(2) or "}" in m.group(2):
+            return None
+        return m.group(2)
+    params: list[str] | None = None
+    body: ast.expr | None = None
+    if isinstance(fn, ast.Lambda):
+        a = fn.args
+        if not (a.vararg or a.kwarg or a.kwonlyargs or a.defaults) and len(a.posonlyargs) + len(a.args) == 2:
+            params, body = [x.arg for x in [*a.posonlyargs, *a.args]], fn.body
+    elif isinstance(fn, (ast.Name, ast.Attribute)) and depth < 2:
+        g = _resolve_callable_text(repo, f, fn)
+        if g is not None and isinstance(g.node, (ast.FunctionDef, ast.Lambda)):
+            ps = [x for x in _positional(g) if x not in ("self", "cls")]
+            if isinstance(g.node, ast.Lambda):
+                params, body = ps, g.node.body
+            else:
+                stmts = [st_ for st_ in g.node.body if not (isinstance(st_, ast.Expr) and isinstance(st_.value, ast.Constant))]
+                if len(stmts) == 1 and isinstance(stmts[0], ast.Return) and stmts[0].value is not None:
+                    params, body = ps, stmts[0].value
+            if params is not None and len(params) != 2:
+                params = None
+    if params is None or body is None:
+        return None
+    x, y = params
+
+    def is_(e: ast.expr, v: str) -> bool:
+        return isinstance(e, ast.Name) and e.id == v
+
+    if isinstance(body, ast.JoinedStr):
+        vals = body.values
+        if len(vals) in (2, 3) and isinstance(vals[0], ast.FormattedValue) and isinstance(vals[-1], ast.FormattedValue) and is_(vals[0].value, x) and is_(vals[-1].value, y):
+            if len(vals) == 2:
+                return ""
+            return vals[1].value if isinstance(vals[1], ast.Constant) and isinstance(vals[1].value, str) else None
+        return None
+    if isinstance(body, ast.BinOp) and isinstance(body.op, ast.Add):
+        if is_(body.left, x) and is_(body.right, y):
+            return ""
+        if isinstance(body.left, ast.BinOp) and isinstance(body.left.op, ast.Add) and is_(body.left.left, x) and is_(body.right, y):
+            return _char_value(repo, f, body.left.right) if _const_str(body.left.right) is None else _const_str(body.left.right)
+        if isinstance(body.right, ast.BinOp) and isinstance(body.right.op, ast.Add) and is_(body.left, x) and is_(body.right.right, y):
+            return _char_value(repo, f, body.right.left) if _const_str(body.right.left) is None else _const_str(body.right.left)
+        return None
+    if isinstance(body, ast.Call) and isinstance(body.func, ast.Attribute) and body.func.attr == "join" and len(body.args) == 1 and isinstance(body.args[0], (ast.Tuple, ast.List)):
+        el = body.args[0].elts
+        if len(el) == 2 and is_(el[0], x) and is_(el[1], y):
+            return _const_str(body.func.value)
+        return None
+    if isinstance(body, ast.Call) and isinstance(body.func, ast.Attribute) and body.func.attr == "format" and len(body.args) == 2 and not body.keywords and is_(body.args[0], x) and is_(body.args[1], y):
+        return _pair_joiner_separator(repo, f, body.func, depth + 1)
+    return None
+
+
 def scan(repo: Repo) -> list[Site]:
     key = ("name_sites", id(repo))
     if key not in _cache:
@@ -3543,6 +4147,17 @@ def _scan(repo: Repo) -> list[Site]:
                             sites.append(Site(f, n, op, hay, needle, True, "unsafe", f"`{norm(n, 80)}`: {const!r} inside a module name is turned into the separator - different names become one", "separator"))
                             continue
                         why = "replaces a constant" if safe else f"`{norm(n, 80)}`: str.replace substitutes every occurrence of one module name inside another, not a leading run of whole components"
+                        if not safe and const is None:
+                            # name.replace(p, x, 1) substitutes the *first* occurrence of p: that is the leading run of whole
+                            # components exactly when name == p or name.startswith(p + ".") holds at the call (position 0 is the
+                            # leftmost occurrence then); after a raw prefix test, or without any test, it is another place
+                            cnt = n.args[2] if len(n.args) == 3 else next((k.value for k in n.keywords if k.arg == "count"), None)
+                            if len(n.args) in (2, 3) and isinstance(cnt, ast.Constant) and cnt.value == 1 and not isinstance(cnt.value, bool):
+                                v, w = _slice_by_len(repo, f, n, needle, boundary_funcs, hay_e=hay, relation_only=True)
+                                if v == "safe":
+                                    safe, why = True, "only the first occurrence is replaced, and " + w + ": the first occurrence is the leading run of whole components"
+                                else:
+                                    why = f"`{norm(n, 80)}`: the first occurrence of one module name inside another is replaced, and no boundary-safe test establishes that the name is that module or lies below it - the occurrence may be anywhere (a raw prefix, the middle of a component)"
                     sites.append(Site(f, n, op, hay, needle, True, "safe" if safe else "unsafe", why, group))
                 # ---- joining components
                 elif isinstance(n, ast.Call) and isinstance(n.func, ast.Attribute) and n.func.attr == "join" and len(n.args) == 1 and _const_str(n.func.value) is not None:
@@ -3567,6 +4182,20 @@ def _scan(repo: Repo) -> list[Site]:
                     else:
                         verdict, why = "unsafe", f"`{norm(n, 80)}`: the components of a module name are joined with {sep!r}, not with the separator '.'"
                     sites.append(Site(f, n, "join", n.args[0], n.func.value, True, verdict, why, "separator"))
+                # ---- components folded pairwise into longer and longer names: accumulate(parts, "{}.{}".format), reduce(lambda a, b: a + "." + b, parts)
+                elif isinstance(n, ast.Call) and isinstance(n.func, (ast.Name, ast.Attribute)) and (repo.resolve_name(f.module, n.func) or "") in ("itertools.accumulate", "functools.reduce") and len(n.args) >= 2:
+                    folded = (repo.resolve_name(f.module, n.func) or "").endswith("reduce")
+                    parts_e, fn_e = (n.args[1], n.args[0]) if folded else (n.args[0], n.args[1])
+                    if "PARTS" not in tagged(parts_e):
+                        continue
+                    sep = _pair_joiner_separator(repo, f, fn_e)
+                    if sep is None or sep in ("/", "\\"):
+                        continue  # not a recognised joiner (no statement) / a module name written as a path
+                    if sep == ".":
+                        verdict, why = "safe", "components are joined pairwise with the separator '.'"
+                    else:
+                        verdict, why = "unsafe", f"`{norm(n, 80)}`: the components of a module name are joined pairwise with {sep!r}, not with the separator '.'"
+                    sites.append(Site(f, n, "join", parts_e, fn_e, True, verdict, why, "separator"))
                 # ---- a bound str method handed to map / filter / any: `any(map(name.startswith, prefixes))`
                 elif isinstance(n, ast.Call) and isinstance(n.func, ast.Name) and n.func.id in ("map", "filter") and len(n.args) == 2 and isinstance(n.args[0], ast.Attribute) and n.args[0].attr in ("startswith", "endswith", "find", "__contains__"):
                     hay = n.args[0].value
@@ -3746,7 +4375,10 @@ def _scan(repo: Repo) -> list[Site]:
                     if s is not True or "PARTS" in tagged(n.value):
                         continue
                     for b, is_upper in bounds:
-                        if b is None or _len_calls(repo, f, b):
+                        if b is None:
+                            continue
+                        b_def = local_defs(repo, f).get(b.id) if isinstance(b, ast.Name) and not isinstance(f.node, ast.Lambda) else None
+                        if _len_calls(repo, f, b) and not isinstance(b_def, ast.IfExp):
                             continue  # (a bound relative to the own length: a cut counted from the end, see the other bound)
                         try:
                             ast.literal_eval(b)
